@@ -13,6 +13,12 @@ CHECKS = {
         ref='DESIGN.md §2 C01'),
 }
 
+CHECKS['C12'] = dict(
+    technique='translation validation of the real optimiser: abstract stack machine over recorded compiler streams + exhaustive compiler-shaped window enumeration through peephole_optimize',
+    text='Every window up to the length bound over the alphabet the rules mention (restricted to adjacent pairs the real compiler emits) is run through the real peephole_optimize and the output is checked for event/stack/variable equivalence from the entry and from every label plus line provenance; every pre/post stream pair recorded from real compiles of the corpus is checked the same way. Exhaustive for the enumerated window space, sampling for whole programs.',
+    note='Trusts the abstract machine semantics in lib/absmach.py (written from ops.rs); windows containing adjacencies the compiler never emits are outside the quantifier and not enumerated.',
+    ref='DESIGN.md §2 C12')
+
 PENDING = {}
 
 
